@@ -53,7 +53,8 @@ Proof.
   - apply Nat.leb_le in E. cbn [a_alive a_known a_slots]. split; [reflexivity|].
     destruct (0 <? a_known x) eqn:E0.
     + unfold realloc. rewrite firstn_all2 by lia. rewrite Hlen.
-      rewrite <- Hlen at 1. rewrite memset0_app, memset0_repeat.
+      pose proof (memset0_app (a_slots x) (repeat POISON (maxp - a_known x)) (8 * (maxp - a_known x))) as Hm.
+      rewrite Hlen, memset0_repeat in Hm. rewrite Hm.
       split; [rewrite app_length, repeat_length; lia|]. split; [exact Hi|].
       intros j. apply nth_app_zeros.
     + apply Nat.ltb_ge in E0. assert (Hnil : a_slots x = []) by (destruct (a_slots x); [reflexivity|cbn in Hlen; lia]).
@@ -324,7 +325,7 @@ Proof.
     + exact Halive.
     + exact Hlen.
     + intros a y e Hy Hya He. apply insert_before_in in He. destruct He as [->|He].
-      * cbn [e_name e_iid]. rewrite (Hnn a n Hpn). symmetry. eapply Hfree; eauto.
+      * change (e_name x) with n. change (e_iid x) with k. rewrite (Hnn a n Hpn). symmetry. eapply Hfree; eauto.
         intros e He. now apply mex_fresh; [apply (ri_incr _ Hinv)|].
       * eapply Hval; eauto.
     + intros a y i Hy Hya Hi. eapply Hfree; eauto. intros e He. apply Hi. apply insert_before_in. now right.
@@ -424,7 +425,7 @@ Proof.
     destruct (resize_fixed (s_maxp s) x (e_iid e) (rl_len _ _ Hrel _ _ Hx) Hlt) as (Hal & Hl & Hi & Hsame).
     rewrite Hsame, <- (rl_val _ _ Hrel _ _ _ Hx Hxa He).
     assert (Hkeep : Rel (set_arr s a (resize true (s_maxp s) x (e_iid e))) p).
-    { eapply Rel_same; eauto. congruence. }
+    { eapply Rel_same; eauto; congruence. }
     destruct (negb (p_val p a (e_name e) =? 0)%N) eqn:Ez; cbn [fst snd erase].
     { split; [exact Hkeep|split; [reflexivity|discriminate]]. }
     rewrite (find_iid_self _ _ _ (ri_incr _ Hinv) He).
